@@ -124,3 +124,15 @@ Proof.
   exists (b2n (goodb false s roots && agree)), res, nrem, time, created, lg.
   rewrite <- !app_assoc. cbn [app]. reflexivity.
 Qed.
+
+(* Whether the simulation is dropped by leaving scopes or by a panic unwinding through their owner
+   (bit 1 of the script's `order` field, read by the implementation runner only) is not an input of
+   the release: the same graph, the same handles, the same verdict. *)
+Theorem drop_path_irrelevant pin stop arg o rest :
+  stop_state pin (stop :: arg :: (o + 2) :: rest)%N = stop_state pin (stop :: arg :: o :: rest)
+  /\ run_gen pin (stop :: arg :: (o + 2) :: rest)%N = run_gen pin (stop :: arg :: o :: rest).
+Proof.
+  assert (H : stop_world pin (stop :: arg :: (o + 2) :: rest)%N = stop_world pin (stop :: arg :: o :: rest)).
+  { unfold stop_world. cbn [hd0 tl0]. change 2%N with (2 * 1)%N. rewrite N.odd_add_mul_2. reflexivity. }
+  unfold run_gen, stop_state. rewrite H. split; reflexivity.
+Qed.
